@@ -55,6 +55,9 @@ func c11StmtKits() map[string][]*ast.Node {
 		"string-index-on-array": {set("c11a", ast.Arr()), ast.ExprS(ast.Set(ast.Idx(ast.Id("c11a"), ast.Str("x")), ast.Num("1")))},
 		"index-too-large":  {set("c11a", ast.Arr()), ast.ExprS(ast.Set(ast.Idx(ast.Id("c11a"), ast.Num("3000000")), ast.Num("1")))},
 		"forin-unset":      {ast.ForIn("c11e", "", ast.Id("c11unset"), ast.Block())},
+		"compound-div-zero": {set("c11d", ast.Num("6")), ast.ExprS(ast.Asg("/=", ast.Id("c11d"), ast.Num("0")))},
+		"compound-on-member-of-number": {set("c11n", ast.Num("5")), ast.ExprS(ast.Asg("+=", ast.Mem(ast.Id("c11n"), "k"), ast.Num("1")))},
+		"compound-bad-operand": {set("c11d", ast.Num("6")), ast.ExprS(ast.Asg("*=", ast.Id("c11d"), ast.Bin("<", ast.Arr(), ast.Num("1"))))},
 	}
 }
 
